@@ -73,6 +73,47 @@ CHECKS = {
         "return the value obtained from exactly the rows they describe.",
         "DESIGN.md §5 C13",
     ),
+    "C04": (
+        "exploration",
+        "bounded exhaustive enumeration of detector x hyper-parameter grid x all small-alphabet data sets, plus the table "
+        "families of C02/C03/C07/C08/C09 re-run with the well-formedness invariant as only oracle",
+        "Every output produced in the stated finite spaces is checked against the well-formedness invariant written from the statement.",
+        "DESIGN.md §5 C04",
+    ),
+    "C05": (
+        "exploration",
+        "exhaustive enumeration of all valid sparse outputs for small n (changepoint subsets, disjoint interval sets, column "
+        "assignments) x index kinds, and of detector runs on all small-alphabet series, vs a positional labelling model",
+        "sparse_to_dense / dense_to_sparse / transform are executed on every element of the stated spaces and compared with the "
+        "positional model and the exact round trip.",
+        "DESIGN.md §5 C05",
+    ),
+    "C10": (
+        "model_checking",
+        "explicit-state breadth-first search over call histories of real objects (all event sequences up to a depth bound, "
+        "states de-duplicated on a structural hash of object graph + model + module globals), every transition compared "
+        "with a constructor-built pristine reference",
+        "All histories up to the depth bound over 20 worlds (detectors, scorers, shared scorers, nested set_params, clone, "
+        "update) are executed on the implementation; each transition is an implementation execution validated against the "
+        "boring reference model (hyper-parameters, last fit data, fitted flag).",
+        "DESIGN.md §5 C10",
+    ),
+    "C11": (
+        "exploration",
+        "bounded exhaustive enumeration of detector/scorer x container x dtype x index kind x column labels x entry-point "
+        "pipeline x all small-alphabet series, differential against the canonical representation",
+        "Every representation of every series in the stated spaces is run through the real entry points and compared with the "
+        "canonical float64 DataFrame run.",
+        "DESIGN.md §5 C11",
+    ),
+    "C14": (
+        "exploration",
+        "exhaustive enumeration of the full Cartesian hyper-parameter grid per detector x scorers x data lengths around the "
+        "minimum x p x NaN x data menu (plus all (0,4) series for valid cells), three-valued oracle from the docstrings",
+        "Every grid cell is constructed, fitted and run; must-raise cells must give ValueError, must-run cells must complete "
+        "well-formed (or end in one of the two documented errors); unspecified cells are counted, not judged.",
+        "DESIGN.md §5 C14",
+    ),
     "C03": (
         "exploration",
         "bounded exhaustive enumeration of sub-additive saving tables x point-saving vectors x penalty branches "
